@@ -337,3 +337,38 @@ def run_clobber(prog, E=None, prefix="mpq_", rule="R-CLOBBER"):
             res.sample({"copy": txt, "at": short_loc(loc), "verdict": "no later writer of %s on the new object" % fld.split("::")[1]})
     res.floor("direct LP-field copies in QScopy_prob", n, 1)
     return res
+
+
+FLAG_ARRAYS = {"ILLlpdata::intmarker": "0 / 1 integrality flags", "rawlpdata::intmarker": "0 / 1 integrality flags", "rawlpdata::lbind": "0 / 1 flags",
+               "rawlpdata::ubind": "0 / 1 flags", "ILLlpdata::is_sos_mem": "-1 / set index", "rawlpdata::is_sos_member": "-1 / set index"}
+STRFUNCS = {"strcpy", "strncpy", "strcat", "strncat", "strlen", "strdup", "strcmp", "strncmp", "ILLutil_str"}
+
+
+def run_strflags(prog, rule="R-STRFLAGS"):
+    """arrays of flags are not strings: a byte 0 is a regular value in them.  A string function applied to such an array (strncpy of
+    intmarker in a copy routine) stops at the first 0 flag and pads the rest with zeros - every integer mark after the first continuous
+    column is lost in the copy, silently."""
+    res = RuleResult(rule, "no string function (strcpy / strncpy / strlen / strdup ...) is applied to a flag array of the problem (intmarker, lbind, ubind, SOS membership)")
+    n_uses = 0
+    for f in sorted(prog.funcs.values(), key=lambda x: x.key):
+        if "_dbl." in f.unit or "_mpf." in f.unit or f.live is None:
+            continue
+        for b, i, c in f.calls():
+            if callee(c) not in STRFUNCS:
+                continue
+            for a in c[3]:
+                fl = fields_of(apath(a)[2])
+                for fa, what in FLAG_ARRAYS.items():
+                    if fl and fl[-1].endswith(fa):
+                        res.obligations += 1
+                        res.violations.append(Violation(rule, "%s|%s applied to %s" % (f.name.replace("mpq_", ""), callee(c), fa.split("::")[1]), f.name, short_loc(c[4]),
+                                                        "%s treats %s (%s) as a NUL-terminated string: the operation stops at the first zero entry" % (show(c)[:90], fa, what)))
+        for b, i, e in f.elements():
+            if e[0] == "S":
+                fl = fields_of(apath(e[1])[2])
+                if fl and any(fl[-1].endswith(fa) for fa in FLAG_ARRAYS):
+                    n_uses += 1
+    res.obligations += n_uses
+    res.counts["element_accesses_to_flag_arrays"] = n_uses
+    res.floor("element accesses to the flag arrays", n_uses, 20)
+    return res
